@@ -282,6 +282,8 @@ def set_grads(case, params, step):
     for gi, ps in enumerate(params):
         for pi, p in enumerate(ps):
             g = dyadic(gen, p.shape, dtype=p.dtype)        # always drawn, so presence does not shift later values
+            if case.get("gscale", 1.0) != 1.0:              # power-of-two gradient scale (exact): tiny / large gradient regimes
+                g = g * case["gscale"]
             p.grad = g if step["present"][gi][pi] else None
 
 
